@@ -41,6 +41,59 @@ pub struct Pb {
     bound: u8,
     step: usize,
     sh: Arc<Mutex<Shared>>,
+    fair: Fair,
+}
+
+/// Fair scheduling (Musuvathi & Qadeer, "Fair stateless model checking"): when task t yields (a
+/// spin / retry loop) its priority drops below every other task enabled at that moment; t is not
+/// eligible again while one of those tasks is enabled and has not been scheduled since. This makes
+/// every spin loop finite and, unlike "the yielder just goes last", also rules out two spinners
+/// handing the processor to each other for ever while the lock holder never runs.
+/// The relation is a function of the execution's history, so a replayed prefix rebuilds it exactly.
+#[derive(Default)]
+pub struct Fair {
+    waits: Vec<(TaskId, Vec<TaskId>)>,
+}
+impl Fair {
+    pub fn reset(&mut self) {
+        self.waits.clear();
+    }
+    /// canonical order of the tasks that may run now: the running task first (if enabled, not
+    /// yielding and not held back by fairness), then ascending ids. Second value: is switching
+    /// away from the running task a preemption?
+    pub fn order(&mut self, runnable: &[&Task], current: Option<TaskId>, is_yielding: bool) -> (Vec<TaskId>, bool) {
+        let mut ids: Vec<TaskId> = runnable.iter().map(|t| t.id()).collect();
+        ids.sort();
+        if let (Some(c), true) = (current, is_yielding) {
+            if ids.contains(&c) {
+                let others: Vec<TaskId> = ids.iter().copied().filter(|x| *x != c).collect();
+                self.waits.retain(|(t, _)| *t != c);
+                if !others.is_empty() {
+                    self.waits.push((c, others));
+                }
+            }
+        }
+        let mut elig: Vec<TaskId> = ids.iter().copied().filter(|t| !self.waits.iter().any(|(w, us)| w == t && us.iter().any(|u| ids.contains(u)))).collect();
+        if elig.is_empty() {
+            // cannot happen (the task that yielded last was scheduled after the others' yields); stay total
+            elig = ids.clone();
+        }
+        let cur_enabled = match current {
+            Some(c) => elig.contains(&c) && !is_yielding,
+            None => false,
+        };
+        if let (Some(c), true) = (current, cur_enabled) {
+            elig.retain(|x| *x != c);
+            elig.insert(0, c);
+        }
+        (elig, cur_enabled)
+    }
+    pub fn scheduled(&mut self, id: TaskId) {
+        for (_, us) in self.waits.iter_mut() {
+            us.retain(|u| *u != id);
+        }
+        self.waits.retain(|(_, us)| !us.is_empty());
+    }
 }
 
 fn cost_of(d: &Dec, choice: u8) -> u8 {
@@ -82,27 +135,13 @@ impl Scheduler for Pb {
         }
         sh.started = true;
         self.step = 0;
+        self.fair.reset();
+        beat();
         Some(Schedule::new(0))
     }
 
     fn next_task(&mut self, runnable: &[&Task], current: Option<TaskId>, is_yielding: bool) -> Option<TaskId> {
-        let mut ids: Vec<TaskId> = runnable.iter().map(|t| t.id()).collect();
-        ids.sort();
-        let cur_enabled = match current {
-            Some(c) => ids.contains(&c) && !is_yielding,
-            None => false,
-        };
-        if let Some(c) = current {
-            if cur_enabled {
-                ids.retain(|x| *x != c);
-                ids.insert(0, c);
-            } else if is_yielding && ids.len() > 1 && ids.contains(&c) {
-                // fairness: a task that yields (spin/retry loop) is not eligible while any other
-                // task is enabled; otherwise the zero-cost choice "the spinner runs again" makes
-                // the schedule space infinite
-                ids.retain(|x| *x != c);
-            }
-        }
+        let (ids, cur_enabled) = self.fair.order(runnable, current, is_yielding);
         let mut sh = self.sh.lock().unwrap();
         let i = self.step;
         let choice = if i < sh.stack.len() {
@@ -123,6 +162,7 @@ impl Scheduler for Pb {
         };
         self.step += 1;
         sh.last_len = self.step;
+        self.fair.scheduled(ids[choice as usize]);
         Some(ids[choice as usize])
     }
 
@@ -232,7 +272,7 @@ pub fn explore_scenario(idx: usize, name: &str, bound: u8, cap: u64, body: Body,
     *CURRENT.lock().unwrap() = Some((idx, name.to_string(), bound, sh.clone()));
     let mut fails = vec![];
     loop {
-        let pb = Pb { bound, step: 0, sh: sh.clone() };
+        let pb = Pb { bound, step: 0, sh: sh.clone(), fair: Fair::default() };
         let runner = shuttle::Runner::new(pb, config());
         let b = body.clone();
         let r = std::panic::catch_unwind(std::panic::AssertUnwindSafe(move || runner.run(move || b())));
@@ -280,7 +320,7 @@ pub fn explore_scenario(idx: usize, name: &str, bound: u8, cap: u64, body: Body,
 pub fn replay_schedule(schedule: &[u8], body: Body) -> Option<String> {
     let stack: Vec<Dec> = schedule.iter().map(|c| Dec { choice: *c, n: 0, cost_before: 0, cur_enabled: false }).collect();
     let sh = Arc::new(Mutex::new(Shared { stack, fixed: true, ..Default::default() }));
-    let pb = PbReplay { step: 0, sh: sh.clone(), trace: std::env::var("MC_TRACE").is_ok() };
+    let pb = PbReplay { step: 0, sh: sh.clone(), trace: std::env::var("MC_TRACE").is_ok(), fair: Fair::default() };
     let runner = shuttle::Runner::new(pb, config());
     let r = std::panic::catch_unwind(std::panic::AssertUnwindSafe(move || runner.run(move || body())));
     match r {
@@ -295,6 +335,7 @@ struct PbReplay {
     step: usize,
     sh: Arc<Mutex<Shared>>,
     trace: bool,
+    fair: Fair,
 }
 impl Scheduler for PbReplay {
     fn new_execution(&mut self) -> Option<Schedule> {
@@ -307,23 +348,7 @@ impl Scheduler for PbReplay {
         Some(Schedule::new(0))
     }
     fn next_task(&mut self, runnable: &[&Task], current: Option<TaskId>, is_yielding: bool) -> Option<TaskId> {
-        let mut ids: Vec<TaskId> = runnable.iter().map(|t| t.id()).collect();
-        ids.sort();
-        let cur_enabled = match current {
-            Some(c) => ids.contains(&c) && !is_yielding,
-            None => false,
-        };
-        if let Some(c) = current {
-            if cur_enabled {
-                ids.retain(|x| *x != c);
-                ids.insert(0, c);
-            } else if is_yielding && ids.len() > 1 && ids.contains(&c) {
-                // fairness: a task that yields (spin/retry loop) is not eligible while any other
-                // task is enabled; otherwise the zero-cost choice "the spinner runs again" makes
-                // the schedule space infinite
-                ids.retain(|x| *x != c);
-            }
-        }
+        let (ids, cur_enabled) = self.fair.order(runnable, current, is_yielding);
         let sh = self.sh.lock().unwrap();
         let c = if self.step < sh.stack.len() { sh.stack[self.step].choice as usize } else { 0 };
         if c >= ids.len() {
@@ -334,6 +359,7 @@ impl Scheduler for PbReplay {
             println!("  step {:3}: run task {:?} (choice {} of {:?}){}", self.step, ids[c], c, ids, if c != 0 && cur_enabled { "  <-- preemption" } else { "" });
         }
         self.step += 1;
+        self.fair.scheduled(ids[c]);
         Some(ids[c])
     }
     fn next_u64(&mut self) -> u64 {
@@ -403,6 +429,19 @@ pub fn run_scenarios(o: &Opts, stats: &mut Stats, scenarios: Vec<Scenario>) -> O
         return None;
     }
     install_tap();
+    // what the heart-beat thread reports while a schedule is running (a stall = the execution
+    // never reached its next scheduling point: an unbounded loop without a yield)
+    *PROGRESS_EXTRA.lock().unwrap() = Some(Box::new(|| {
+        if let Ok(cur) = CURRENT.try_lock() {
+            if let Some((_, name, bound, sh)) = cur.as_ref() {
+                if let Ok(s) = sh.try_lock() {
+                    let schedule: Vec<u8> = s.stack.iter().take(s.last_len).map(|d| d.choice).collect();
+                    return json!({"scenario": name, "preemption_bound": bound, "schedule": schedule});
+                }
+            }
+        }
+        serde_json::Value::Null
+    }));
     for (idx, sc) in scenarios.iter().enumerate() {
         if !o.mine(idx) {
             continue;
